@@ -19,7 +19,9 @@ VOCAB["d6"] = VOCAB["d4"] + ["const", "contains", "exclusiveMinimum", "exclusive
 VOCAB["d7"] = VOCAB["d6"] + ["if"]
 
 SIMPLE_TYPES = ["array", "boolean", "integer", "null", "number", "object", "string"]
-NAMES = ["a", "b", "c", "ab", "", "a b", "~x", "a/b", "0", "1", "é", "x~1y", "%25", "\U0001F600"]
+NAMES = ["a", "b", "c", "ab", "", "a b", "~x", "a/b", "0", "1", "é", "x~1y", "%25", "\U0001F600",
+         # names that are keywords elsewhere: as member names of properties/dependencies maps and of instances they are just names
+         "if", "$ref", "id"]
 # (pattern, strings that match, strings that do not)
 PATTERNS = [
     ("^a", ["a", "ab", "a b", "a/b"], ["b", "", "ba"]),
@@ -51,6 +53,11 @@ LATER_PARTNER = {
     "dependentRequired": ("dependencies", [{"a": ["zz"]}, {"b": ["a", "zz"]}]), "dependentSchemas": ("dependencies", [{"a": False}, {"b": {"not": {}}}]),
     "prefixItems": ("items", [[False], [{"not": {}}, False], []]), "$recursiveRef": ("$ref", ["#"]), "$dynamicRef": ("$ref", ["#", "#a"]),
     "$defs": ("definitions", [{"a": False}]), "deprecated": ("type", [True]), "writeOnly": ("type", [True]),
+    # keywords of OTHER dialects (OpenAPI 3.0, Draft 2, popular extensions) next to the keyword they modify at home
+    "nullable": ("type", [True, True, False]), "x-nullable": ("type", [True]), "optional": ("type", [True]),
+    "maxDecimal": ("type", [0, 1]), "coerce": ("type", [True, "number"]), "unique": ("items", [True]),
+    "discriminator": ("oneOf", [{"propertyName": "a"}, "a"]), "strict": ("properties", [True]),
+    "requires": ("type", ["zz", {"not": {}}]), "instanceof": ("type", ["Date", "Number"]),
 }
 FOREIGN = {
     "d3": ["allOf", "anyOf", "oneOf", "not", "const", "contains", "propertyNames", "if", "then", "else",
@@ -377,6 +384,30 @@ class G:
             r.shuffle(items)
             sch = dict(items)
         return sch
+
+    def interplay(self, d):
+        """object keywords that consult each other, at the root AND inside an applicator working on
+        the same instance, in every key order: `patternProperties` / `additionalProperties` / `properties`
+        with different pattern sets outside and inside `allOf`/`anyOf`/`oneOf`/`not`/`extends`/`dependencies`"""
+        r = self.r
+        simple = [p for p in PATTERNS if p[0] in ("^a", "b$", "^[0-9]+$", "a|c", "x.y", "^.{2}$", "[~/%]")]
+        p_out, p_in = r.sample(simple, 2)
+        leaf = lambda: r.choice([{}, {"type": "string"}, {"type": "integer"}, {"maxLength": 1}, {"minimum": 1}])   # noqa: E731
+        inner = {"patternProperties": {p_in[0]: leaf()}}
+        if r.random() < 0.6:
+            inner["additionalProperties"] = r.choice([False, leaf()])
+        if r.random() < 0.3:
+            inner["properties"] = {r.choice(NAMES): leaf()}
+        if d == "d3":
+            app, val = r.choice([("extends", inner), ("extends", [inner]), ("dependencies", {r.choice(p_out[1] + ["a"]): inner})])
+        else:
+            app, val = r.choice([("allOf", [inner]), ("anyOf", [inner, {"type": "integer"}]), ("oneOf", [inner]), ("not", inner),
+                                 ("dependencies", {r.choice(p_out[1] + ["a"]): inner})])
+        parts = [("patternProperties", {p_out[0]: leaf()}), (app, val), ("additionalProperties", r.choice([False, False, leaf()]))]
+        if r.random() < 0.4:
+            parts.append(("properties", {r.choice(NAMES): leaf()}))
+        r.shuffle(parts)
+        return dict(parts)
 
     # ------------------------------------------------------------------ instances
     def instance_for(self, d, s, depth=3):
